@@ -49,6 +49,19 @@ func ifsOnValue(f *ssa.Function, v ssa.Value) []branch {
 		if u, ok := root.(*ssa.UnOp); ok && u.Op == token.MUL && cells[u.X] {
 			return true
 		}
+		// `x && v` evaluated as a value (switch cases, assignments): phi [false, …, v] — when the phi is
+		// true, v is true (exact for the true edge; callers that cut the false edge cut a superset)
+		if ph, ok := root.(*ssa.Phi); ok {
+			has, others := false, true
+			for _, e := range ph.Edges {
+				if stripValue(e) == v {
+					has = true
+				} else if b, isB := constBool(asConst(e)); !isB || b {
+					others = false
+				}
+			}
+			return has && others
+		}
 		return false
 	}
 	for _, br := range branchesIn(f) {
@@ -456,4 +469,83 @@ func originatesFromCall(v ssa.Value, pred func(string) bool, depth int) bool {
 // dom: a dominates b — only meaningful (and only true) inside one function.
 func dom(a, b *ssa.BasicBlock) bool {
 	return a != nil && b != nil && a.Parent() == b.Parent() && a.Dominates(b)
+}
+
+// trueOnlyBehind: the boolean function g can answer true only behind one of the `cut` edges —
+// every Return whose result may be true is unreachable from g's entry once the cut edges are
+// removed — or by returning a value for which isPred holds (the predicate itself, as in
+// `return a || pred`). Constant-false results are ignored.
+func trueOnlyBehind(g *ssa.Function, cut map[edge]bool, isPred func(ssa.Value) bool) bool {
+	live := blocksReachable(g.Blocks[0], cut, nil)
+	okAll := true
+	var leaf func(v ssa.Value, pred, at *ssa.BasicBlock, seen map[*ssa.Phi]bool)
+	leaf = func(v ssa.Value, pred, at *ssa.BasicBlock, seen map[*ssa.Phi]bool) {
+		if ph, ok := v.(*ssa.Phi); ok {
+			if seen[ph] {
+				return
+			}
+			seen[ph] = true
+			for i, e := range ph.Edges {
+				leaf(e, ph.Block().Preds[i], ph.Block(), seen)
+			}
+			return
+		}
+		if b, ok := constBool(asConst(v)); ok && !b {
+			return
+		}
+		if isPred != nil && isPred(stripValue(v)) {
+			return
+		}
+		// may be true: the edge pred→at must be dead under the cut
+		if pred == nil {
+			if live[at] {
+				okAll = false
+			}
+			return
+		}
+		slot := -1
+		for i, sc := range pred.Succs {
+			if sc == at {
+				slot = i
+			}
+		}
+		if live[pred] && slot >= 0 && !cut[edge{pred, slot}] {
+			okAll = false
+		}
+	}
+	n := 0
+	for _, in := range instrsWhereOne(g, isReturn) {
+		ret := in.(*ssa.Return)
+		if len(ret.Results) != 1 {
+			return false
+		}
+		n++
+		leaf(retOperand(ret, 0), nil, ret.Block(), map[*ssa.Phi]bool{})
+	}
+	return n > 0 && okAll
+}
+
+// boolHelperCall: c calls a transparent helper with a single boolean result.
+func boolHelperCall(c callSite) *ssa.Function {
+	if c.Value() == nil {
+		return nil
+	}
+	g := transparentCallee(c.Fn, c.Instr)
+	if g == nil || g.Signature.Results().Len() != 1 {
+		return nil
+	}
+	if b, ok := g.Signature.Results().At(0).Type().Underlying().(*types.Basic); !ok || b.Kind() != types.Bool {
+		return nil
+	}
+	return g
+}
+
+// paramFor: the parameter of g that receives argument value v at call c (nil if none).
+func paramFor(g *ssa.Function, c callSite, v ssa.Value) *ssa.Parameter {
+	for i, a := range c.Common.Args {
+		if a == v && i < len(g.Params) {
+			return g.Params[i]
+		}
+	}
+	return nil
 }
